@@ -227,6 +227,15 @@ func (s *sched) exec(g *G, r *request) (rep reply, blocked bool) {
 		m.waitq = append(m.waitq, muWaiter{g, read})
 		s.note(g, r.kind, "block", sid)
 		return reply{}, true
+	case opWaitStep:
+		if r.n <= s.step {
+			s.note(g, r.kind, "0", sid)
+			return reply{}, false
+		}
+		g.wakeStep = r.n
+		s.stepWaiters = append(s.stepWaiters, g)
+		s.note(g, r.kind, "block", sid)
+		return reply{}, true
 	case opSleep:
 		if r.n <= 0 {
 			s.note(g, r.kind, "0", sid)
